@@ -1,6 +1,6 @@
 (* C11 — a tree accepted by check_boolean_result only ever evaluates to a Boolean. Property theorems only. *)
 Require Import List Bool NArith ZArith. Import ListNotations.
-Require Import F64 Dec Types Generic Lang Opt IO GenValidate.
+Require Import F64 Dec Types Generic Lang Opt IO GenValidate GenInterp InterpFacts.
 Definition leaves_bool (E:env) : expr -> Prop := Generic.leaves_bool as_bool is_empty un binop E is_boolv.
 Definition op_eqb (a b:op) : bool := match a, b with
   | Plus,Plus|Minus,Minus|Multiply,Multiply|Divide,Divide|Greater,Greater|GreaterEqual,GreaterEqual|Less,Less|LessEqual,LessEqual
@@ -36,3 +36,9 @@ Print Assumptions C11_rejects.
 Example C11_example : check_bool (ETer TernaryCondition (EBin Less (ELit (VNum (of_int 1))) (ELit (VNum (of_int 2)))) (EUn Not (ELit (VStr []))) (EBin Or (EVar [120%N]) (ELit (VNum (of_int 5))))) = true.
 Proof. reflexivity. Qed.
 (* regression witness for F2: before the repair the model of `x or 5` with x undefined yielded Number(5) *)
+
+(* tie (a) on the interpreter's side: what the whitelisted operators evaluate to is the reading of fn unary / fn binary as they are in the source today *)
+Theorem C11_binary_is_the_table : forall o rl rr, Some (bin_combine o rl rr) = tab_binary o rl rr.
+Proof. exact bin_combine_is_the_table. Qed.
+Theorem C11_unary_is_the_table : forall o r, Some (un_combine o r) = tab_unary o r.
+Proof. exact un_combine_is_the_table. Qed.
